@@ -22,6 +22,12 @@ LOOPS_TIE = ("TRANSLATED tie of the inner loops: tools/extract_schedule.py turns
              "edits tried, all break or leave the translatable fragment, which counts as a broken tie). The recursive passes around the loops are "
              "hand-modelled. ")
 
+PASS_TIE = ("TRANSLATED tie of the recursive forward pass: tools/extract_pass.py turns ForwardScheduler.__forward_pass into a PyLite term on every "
+            "run; *_source_forward_pass proves that interpreting it on an object store (task attributes as mutable slots, the calculated list, the "
+            "resource table with setdefault, the scripted clock, the ledger, recursion) is the model's fwdPass - unless the model run ends in "
+            "RecursionError, which C14 excludes for real inputs (29 semantic edits tried: all break a lemma or leave the fragment). "
+            "Not translated: calc() around the pass (validation, clone, prepare, the loop over the roots), property setters of Task. ")
+
 SCHED_TIE = ("The model (lean/PjVerif/Model/Sched.lean, Clone.lean) mirrors schedule.py statement by statement and is tied to the code by a "
              "correspondence stream (random WBSs with links on leaves and summaries, outside predecessors, milestones, fixed dates, 0-3 resources "
              "with weekly/dated/composed/bounded/dead calendars, scripted clock, both balance settings): ordered usage rows, dates and resource "
@@ -44,13 +50,13 @@ CLAIMED = {
               "lists, links stored on both ends), a monotone clock that stays within one day, and outside predecessors being leaves. The full "
               "statement is false on the code with links on summary tasks: C02_full_fails is a kernel-checked counterexample (finding "
               "KF-S2-C02, replayed on the implementation on every run); a failure inside the hypotheses, or one the model does not predict, is "
-              "reported as a violation. " + SCHED_TIE),
+              "reported as a violation. " + PASS_TIE + SCHED_TIE),
         design='6 (C02)', technique='Lean 4 proof (pass invariant) of the partial statement + kernel-checked counterexample + differential correspondence'),
     'C07': dict(
         text=("Theorems C07_forward / C07_backward / C07_rollup_forward: in every schedule of the model each summary task's start, end, estimate "
               "and spent are the earliest start, latest end and the sums over its children, whatever the user had put there; every task has "
               "start <= end (forward: when user-fixed dates are consistent, i.e. a fixed end comes with a fixed start not after it - the "
-              "statement's domain); C07_wbs_start_end_*: WBS.start/WBS.end are the earliest start / latest end over all tasks. " + SCHED_TIE),
+              "statement's domain); C07_wbs_start_end_*: WBS.start/WBS.end are the earliest start / latest end over all tasks. " + PASS_TIE + SCHED_TIE),
         design='6 (C07)', technique='Lean 4 proof (pass invariant: frozen-once-calculated, children before parents) + differential correspondence'),
     'C03': dict(
         text=("Theorems C03_forward / C03_backward for every input of the scheduler model (any WBS, resource set, calendars incl. "
@@ -72,7 +78,7 @@ CLAIMED = {
               "the first reserved day, the end within the 24 hours after the last reserved day's midnight, a backward start within the first "
               "reserved day; milestones, completed and summary tasks reserve nothing; user-fixed dates of non-milestone leaves are returned "
               "unchanged. Hypotheses: membership flags describe the WBS, every clock reading of one calc lies on one calendar day; backward: no "
-              "user-fixed dates. " + LOOPS_TIE + LOOPS_TIE + SCHED_TIE),
+              "user-fixed dates. " + LOOPS_TIE + PASS_TIE + LOOPS_TIE + SCHED_TIE),
         design='6 (C04)', technique='Lean 4 proof (fill-loop specification + per-task placement invariant) + differential correspondence'),
     'C06': dict(
         text=("PARTIAL / split. The Lean model is a function, so purity and determinism of the MODEL hold by construction; that the implementation "
@@ -96,7 +102,7 @@ CLAIMED = {
               "rows of a leaf that takes part in no dependency are a function of its own data, its calendar, the project start, the (constant) "
               "clock and the default estimate, hence equal in any two WBSs that agree on those; for tasks with prerequisites (whose dates depend "
               "on them) the clause rests on the correspondence stream's removal pairs. "
-              + LOOPS_TIE + SCHED_TIE),
+              + PASS_TIE + LOOPS_TIE + SCHED_TIE),
         design='6 (C08)', technique='Lean 4 proof (fill-loop tightness + ledger monotonicity) of partial statements + counterexamples + differential correspondence'),
     'C09': dict(
         text=("PARTIAL. Proved for every WBS without user-fixed dates: C09_deadline (no task ends after the project end), C09_encode (start = midnight "
